@@ -34,8 +34,9 @@ handshake - a control endpoint that acts on another endpoint's token shows up th
 Mechanism names: a contradiction is named by its symptom (`setup_not_acked`, `data_stage_in_not_answered`,
 `data_stage_wrong_toggle/_length/_data/_packet`, `status_in_not_zlp_data1`, `status_in_not_answered`,
 `status_out_not_acked`, `data_sent_outside_in_data_stage`, `token_of_unused_endpoint_answered`,
-`foreign_in_transaction_corrupted`, ...) except for four history patterns which have their own names because they are
-open findings on the unchanged tree (findings/C07.md); the name is decided from the wire history only:
+`foreign_in_transaction_corrupted`, ...) except for four history patterns which have their own names because they were
+found as defects of the original tree (findings/C07.md; the last three are repaired in /repo and marked `fixed` in
+known_findings.d/C07.json, the first is open); the name is decided from the wire history only:
   in_past_end_wedges_descriptor_handler        - the host sent an IN after the last packet of a GET_DESCRIPTOR data
                                                  stage earlier on this device
   stale_request_state_after_abandoned_transfer - a transfer was left unfinished earlier on this device (cleared by a
@@ -44,9 +45,8 @@ open findings on the unchanged tree (findings/C07.md); the name is decided from 
                                                  packet was not ACKed
   foreign_ack_completes_nodata_request         - an ACK of another transaction was on the wire between the SETUP
                                                  and the status stage of SET_ADDRESS/SET_CONFIGURATION/CLEAR_FEATURE
-Consequence: while `stale_request_state_after_abandoned_transfer` is open, any other defect that shows only after an
-abandoned transfer is reported under that name (the proposed fix removes the finding; mutation runs on top of the fix
-show such defects are detected).
+Consequence: any defect that shows only after an abandoned transfer is reported under the name
+`stale_request_state_after_abandoned_transfer` (fatal since that finding is fixed).
 After a contradiction nothing more is judged on that device (its state is unknown); the case continues on a new one.
 Thorough tier: 30 % of the devices use luna's 60 MHz full-speed timing tables (`always_fs=False`, `full_speed_only`).
 
